@@ -345,7 +345,12 @@ def build(spec, da=None, attrs=None):
         warm(a, da)
         for d, l in zip(dims, labels):
             if len(l):
-                a.set_axis(label_array(l), axis=d)
+                if hist.get("via") == "values-setter-ndarray":
+                    a.axes[d].values = np.array(l)          # (a plain ndarray: strings arrive as a fixed-width string array)
+                elif hist.get("via") == "values-setter-list":
+                    a.axes[d].values = list(l)
+                else:
+                    a.set_axis(label_array(l), axis=d)
     elif mode == "reused":
         # an object that was used before under other labels (same kinds) and other values, then relabelled and overwritten in place
         a = build_initial(spec, da)
